@@ -208,10 +208,15 @@ fn faulted_run(initial: &std::sync::Arc<Image>, part: usize, cfg: &HistCfg, ops:
             }
             // (a call that fails for its own reason in the fault-free run too - e.g. NotEnoughSpace -
             // still "returns an error" when a device call fails during its clean-up)
-            // (... and, after an earlier failed call of a multi-fault run, "out of space" from a
-            // call that may need up to `need` clusters when the medium had fewer free ones)
-            OpRes::Err(k) if matches!(k, Ek::NotEnoughSpace | Ek::DiskFull) && free_before.map(|f| f < if matches!(op, Op::Mkdir { .. }) { 2 } else { 1 }).unwrap_or(false) => {
-                rep.count("space_errors_after_an_earlier_fault_accepted", 1);
+            // (several faults in one run: once an earlier call has failed, the volume is no longer in
+            // the state the fault-free run had at this point - a failed create may keep the cluster
+            // it took, a failed delete keeps its slot in a full FAT16 root - so the fault-free run
+            // cannot say what this call's own reason would be. Such a call "returns an error", which
+            // is what the statement asks; the own-reason comparison is made for the first faulted
+            // call of a run only, where the state before it equals the fault-free one.)
+            OpRes::Err(_) if faulted_at != Some(i) => {
+                let _ = free_before;
+                rep.count("errors_after_an_earlier_faulted_call_not_compared", 1);
             }
             OpRes::Err(k) if !acceptable_error(op, *k) && golden.get(i) != Some(&OpRes::Err(*k)) => {
                 rep.violate(v("C11.ok-despite-fault", op.kind(), &format!("fabricated answer {:?}", k), format!("{} answered {:?} although the device failed during it ({})", op.describe(), k, plan.label), mk_case(i)));
